@@ -125,3 +125,45 @@ async fn vf_order_latch_and_statuses() {
     }
     println!("VF-SUMMARY test=order_latch_and_statuses checked={} nontrivial={} bad={}", checked, checked, bad);
 }
+
+#[tokio::test(flavor = "multi_thread", worker_threads = 4)]
+async fn vf_listener_failures_at_connect() {
+    // C15: the optional log listener being absent, or answering and then failing at any stage of the handshake, never fails the run
+    let (mut checked, mut bad) = (0u64, 0u64);
+    for mode in ["no listener", "accepts and closes at once", "accepts and sends a line that is not the expected JSON", "accepts and sends half a line, then closes",
+                 "accepts, sends valid arguments, then closes", "accepts, sends valid arguments asking for stdout, then closes"] {
+        checked += 1;
+        let td = crate::core::testing::new_testdir().unwrap();
+        let wp = td.path();
+        script(&wp.join("t1/monorail/cmd"), "hello.sh", "echo hello; echo err 1>&2; exit 0");
+        let l = std::net::TcpListener::bind("127.0.0.1:0").unwrap();
+        let port = l.local_addr().unwrap().port();
+        let m = mode.to_string();
+        let server = if mode == "no listener" { drop(l); None } else {
+            Some(std::thread::spawn(move || {
+                use std::io::Write;
+                l.set_nonblocking(false).unwrap();
+                if let Ok((mut s, _)) = l.accept() {
+                    match m.as_str() {
+                        "accepts and closes at once" => {}
+                        "accepts and sends a line that is not the expected JSON" => { let _ = s.write_all(b"hello there\n"); }
+                        "accepts and sends half a line, then closes" => { let _ = s.write_all(b"{\"commands\":[\"a\"],"); }
+                        "accepts, sends valid arguments, then closes" => { let _ = s.write_all(b"{\"commands\":[],\"targets\":[],\"include_stdout\":false,\"include_stderr\":false}\n"); }
+                        _ => { let _ = s.write_all(b"{\"commands\":[],\"targets\":[],\"include_stdout\":true,\"include_stderr\":true}\n"); }
+                    }
+                    drop(s);
+                }
+            }))
+        };
+        let cfg: core::Config = serde_json::from_str(&format!("{{\"targets\":[{{\"path\":\"t1\"}}],\"server\":{{\"log\":{{\"port\":{}}},\"lock\":{{}}}}}}", port)).unwrap();
+        let cmd = "hello".to_string();
+        let o = handle_run(&cfg, &input(vec![&cmd]), "x", wp).await;
+        let ok = matches!(&o, Ok(out) if !out.failed);
+        if !ok {
+            bad += 1;
+            println!("VF-FAIL run of one succeeding command with the log listener in state `{}` :: the run did not succeed ({:?}); a listener failure must only disable streaming (C15)", mode, o.as_ref().map(|x| x.failed).map_err(|e| e.to_string()));
+        }
+        if let Some(h) = server { if mode != "no listener" && !h.is_finished() { let _ = std::net::TcpStream::connect(("127.0.0.1", port)); } let _ = h.join(); }
+    }
+    println!("VF-SUMMARY test=listener_failures_at_connect checked={} nontrivial={} bad={}", checked, checked - 1, bad);
+}
